@@ -158,18 +158,28 @@ fn worker(engine: &dyn Engine, prop: &str, tier: &str, master: u64, start: u64, 
                 case.knobs.insert(k.clone(), *val);
             }
             let sig = v.signature();
-            let t0 = Instant::now();
-            let (mcase, minimised) = if std::env::var_os("VERIF_NO_MINIMISE").is_some() || v.class == "hang" {
-                (case.clone(), false)
-            } else {
+            // Report the violation as found first: a neighbouring case tried by the minimiser may
+            // kill this process (abort, stack overflow), which must not cost the finding.
+            {
+                let f = Found { idx, case: case.clone(), violation: v.clone(), minimised: false };
+                let mut o = out.lock();
+                let _ = writeln!(o, "V {}", serde_json::to_string(&f).unwrap());
+                let _ = writeln!(o, "M {idx}");
+                let _ = o.flush();
+            }
+            let _ = min_budget;
+            if std::env::var_os("VERIF_NO_MINIMISE").is_none() && v.class != "hang" && v.class != "harness-error" {
                 let m = engine.minimise(&case, &sig);
-                let _ = (t0, min_budget);
-                (m, true)
-            };
-            let f = Found { idx, case: mcase, violation: v, minimised };
-            let mut o = out.lock();
-            let _ = writeln!(o, "V {}", serde_json::to_string(&f).unwrap());
-            let _ = o.flush();
+                let f = Found { idx, case: m, violation: v, minimised: true };
+                let mut o = out.lock();
+                let _ = writeln!(o, "V {}", serde_json::to_string(&f).unwrap());
+                let _ = o.flush();
+            }
+            {
+                let mut o = out.lock();
+                let _ = writeln!(o, "N {idx}");
+                let _ = o.flush();
+            }
         }
         if batch.runs >= 512 || last_flush.elapsed() > Duration::from_secs(2) {
             let mut o = out.lock();
@@ -281,6 +291,7 @@ enum Msg {
 
 struct WorkerState {
     child: std::process::Child,
+    minimising: bool,
     current: Option<u64>,
     began: Instant,
     next_start: u64,
@@ -344,7 +355,7 @@ pub fn check(engine: &dyn Engine, prop: &str, tier: &str) -> i32 {
     let mut workers: Vec<WorkerState> = Vec::new();
     for w in 0..n {
         let child = spawn_worker(&exe, prop, tier, master, w as u64, stride, w, 0, &tx);
-        workers.push(WorkerState { child, current: None, began: Instant::now(), next_start: w as u64, done: false, gen: 0 });
+        workers.push(WorkerState { child, minimising: false, current: None, began: Instant::now(), next_start: w as u64, done: false, gen: 0 });
     }
     let mut agg = Batch::default();
     let mut digests: HashSet<u64> = HashSet::new();
@@ -404,8 +415,22 @@ pub fn check(engine: &dyn Engine, prop: &str, tier: &str) -> i32 {
                     }
                 } else if let Some(rest) = line.strip_prefix("V ") {
                     if let Ok(f) = serde_json::from_str::<Found>(rest) {
-                        found.push(f);
+                        // the minimised version of a finding replaces the one reported first
+                        if f.minimised {
+                            if let Some(old) = found.iter_mut().rev().find(|o| o.idx == f.idx && !o.minimised && o.violation.signature() == f.violation.signature()) {
+                                *old = f;
+                            } else {
+                                found.push(f);
+                            }
+                        } else {
+                            found.push(f);
+                        }
                     }
+                } else if line.starts_with("M ") {
+                    w.minimising = true;
+                    w.began = Instant::now();
+                } else if line.starts_with("N ") {
+                    w.minimising = false;
                 } else if line == "D" {
                     w.done = true;
                     w.current = None;
@@ -440,11 +465,17 @@ pub fn check(engine: &dyn Engine, prop: &str, tier: &str) -> i32 {
                     }
                     None => "unknown".into(),
                 };
-                let case = gen_at(engine, prop, &plan, idx, master);
-                found.push(Found { idx, case, violation: Violation::new("abort", "process", sigdesc.clone(), format!("worker process died ({sigdesc}) during this run")), minimised: false });
+                if w.minimising {
+                    // died while the minimiser tried a neighbouring case: the finding itself is
+                    // already recorded (unminimised)
+                    w.minimising = false;
+                } else {
+                    let case = gen_at(engine, prop, &plan, idx, master);
+                    found.push(Found { idx, case, violation: Violation::new("abort", "process", sigdesc.clone(), format!("worker process died ({sigdesc}) during this run")), minimised: false });
+                }
                 restarts += 1;
                 let next = idx + stride;
-                if next < total && restarts < 200 {
+                if next < total && restarts < 5000 {
                     w.gen += 1;
                     w.child = spawn_worker(&exe, prop, tier, master, next, stride, slot, w.gen, &tx);
                     w.current = None;
@@ -467,12 +498,16 @@ pub fn check(engine: &dyn Engine, prop: &str, tier: &str) -> i32 {
                 if w.began.elapsed() > hang {
                     let _ = w.child.kill();
                     let _ = w.child.wait();
-                    let case = gen_at(engine, prop, &plan, idx, master);
-                    found.push(Found { idx, case, violation: Violation::new("hang", "process", "watchdog", format!("run made no progress for {}s", hang.as_secs())), minimised: false });
+                    if w.minimising {
+                        w.minimising = false;
+                    } else {
+                        let case = gen_at(engine, prop, &plan, idx, master);
+                        found.push(Found { idx, case, violation: Violation::new("hang", "process", "watchdog", format!("run made no progress for {}s", hang.as_secs())), minimised: false });
+                    }
                     restarts += 1;
                     let next = idx + stride;
                     w.gen += 1;
-                    if next < total && restarts < 200 {
+                    if next < total && restarts < 5000 {
                         w.child = spawn_worker(&exe, prop, tier, master, next, stride, slot, w.gen, &tx);
                         w.current = None;
                         w.began = Instant::now();
